@@ -104,10 +104,15 @@ func svcHandle(c service.Controller) handle {
 // (non-zero constant generation; the objects named w1 and p1 are terminating but still exist: neither field takes
 // part in any selection rule)
 func meta(ns, name, rv string) metav1.ObjectMeta {
-	m := metav1.ObjectMeta{Namespace: ns, Name: name, ResourceVersion: rv, Generation: 7}
+	m := metav1.ObjectMeta{Namespace: ns, Name: name, ResourceVersion: rv, Generation: 7, Annotations: map[string]string{"l": "9", "x": "9"}}
 	if name == "w1" || name == "p1" {
 		t := metav1.Unix(1000, 0)
 		m.DeletionTimestamp = &t
+	}
+	if name == "w2" || name == "p3" {
+		yes := true
+		m.Finalizers = []string{"verif/hold"}
+		m.OwnerReferences = []metav1.OwnerReference{{APIVersion: "apps/v1", Kind: "Deployment", Name: "w1", UID: "u-w1", Controller: &yes}}
 	}
 	return m
 }
@@ -703,6 +708,26 @@ func Property() runner.Property {
 					// a source appears that selects nothing yet and disappears again; then a destination object appears that it
 					// would have selected (the join's filter must be back to the first one)
 					scenario(cfg{Kind: ki, Name: "source-appears-and-disappears,then-its-target-appears", SrcInit: []ev{{C, "ns", "w1", sel1}}, SrcHist: []ev{{C, "ns", "w2", sel3}, {D, "ns", "w2", sel3}}, DstHist: dst3, Sequenced: true, Cycles: 1, Mode: "S2", Bound: d - 1}),
+					// many sources, each selecting one destination object of its own (default schedule): nothing depends on how
+					// many rules a join's filter is built from
+					func() runner.Sc {
+						if k.double {
+							return scenario(cfg{Kind: ki, Name: "appear+change-selector", SrcInit: []ev{{C, "ns", "w1", sel1}}, SrcHist: []ev{{U, "ns", "w1", sel2}}, DstHist: dst, Cycles: 1, Mode: "D0"})
+						}
+						var srcs, dsts []ev
+						for i := 0; i < 70; i++ {
+							if k.selSvc {
+								srcs = append(srcs, ev{C, "ns", fmt.Sprintf("w%03d", i), fmt.Sprintf("s%03d", i)})
+								dsts = append(dsts, ev{C, "ns", fmt.Sprintf("s%03d", i), "x=1"})
+							} else {
+								srcs = append(srcs, ev{C, "ns", fmt.Sprintf("w%03d", i), fmt.Sprintf("l=%d", i)})
+								dsts = append(dsts, ev{C, "ns", fmt.Sprintf("p%03d", i), fmt.Sprintf("l=%d", i)})
+							}
+						}
+						// ... and some that nothing selects
+						dsts = append(dsts, ev{C, "ns", "zz1", "l=none"}, ev{C, "other", "zz2", "l=1"})
+						return scenario(cfg{Kind: ki, Name: "seventy-sources", SrcInit: srcs[:60], SrcHist: srcs[60:], DstHist: dsts, Sequenced: true, Cycles: 1, Mode: "D0"})
+					}(),
 					// a burst of source changes larger than the (model) event buffers: whatever is dropped on the way to the
 					// join, it ends at the selection of the final sources
 					scenario(cfg{Kind: ki, Name: "source-burst-overflows-the-buffers", Bufsiz: 2, SrcInit: []ev{{C, "ns", "w1", sel1}}, SrcHist: []ev{{U, "ns", "w1", sel2}, {C, "ns", "w2", sel1}, {U, "ns", "w1", sel1}, {D, "ns", "w2", sel1}, {U, "ns", "w1", sel2}}, DstHist: dst, Cycles: 1, Mode: "S2", Bound: d}),
